@@ -306,6 +306,9 @@ Definition check41 (t : term) : term :=
              any element is read; the input is too short (model: EShort) but the process dies first *)
           let oom := match out, m with
                      | OPanic, Err EShort => has_unbounded (List.length env) s
+                     (* same defect through the go-codec compatible reading of a MAP header as an array of 2n
+                        elements (outside the model: Unm 4): the flattened count is trusted in the same way *)
+                     | OPanic, Unm 4 => has_unbounded (List.length env) s
                      | _, _ => false
                      end in
           if oom then v_known "unbounded_allocbound_length_prefix_oom" detail else
